@@ -4,7 +4,7 @@ package engine_test
 
 // Glue of the C14 harness: package engine cannot import services/retention in its own test files
 // (retention imports engine), the external test package can. It hands the in-package harness a
-// constructor for the REAL retention service wired to the harness' catalogue adapter and the real
+// constructor for the REAL retention service wired to the harness catalogue adapter and the real
 // engine; the returned function is Service.handle.
 
 import (
@@ -15,7 +15,7 @@ import (
 )
 
 func init() {
-	engine.VerifC14NewService = func(mc engine.VerifC14MetaClient, e *engine.EngineImpl, interval time.Duration) func() {
+	engine.VerifC14NewService = func(mc engine.VerifC14MetaClient, e engine.VerifC14Engine, interval time.Duration) func() {
 		s := retention.NewService(interval)
 		s.MetaClient = mc
 		s.Engine = e
